@@ -1140,8 +1140,36 @@ def analyze(repo, bdir, include_flags, overrides=None, jobs=None):
                                  origin=["other", "unscanned caller %s:%d" % (h["file"], h["line"])]))
     rows = dedup(rows, ("file", "caller", "callee", "arg", "line"))
     rows.sort(key=lambda c: (c["file"], c["line"], c["callee"], c["arg"], c["caller"]))
+    # ---- efun surface: which efun implementations (f_* in lib/efuns) reach a file-system call site? ------
+    # name-based call graph over all scanned functions (direct calls and address-taken references)
+    graph = {}
+    for c in calls + addr:
+        graph.setdefault(c["caller"], set()).add(c["callee"])
+    med_fns = set(x["fn"] for x in sites if x["file"].startswith("lib/efuns/") or x["file"] == "lib/lpc/object.c")
+    ldr_fns = set(x["fn"] for x in sites) - med_fns
+
+    # two functions are CUT nodes, each covered on its own: `load_object` (compiler layer: names pass legal_path,
+    # no master consultation; exercised by the ld/inc/inh commands) and `save_ed_buffer` (writes the editor
+    # buffer of a net-dead user to the file the MASTER names; allow-listed in NV/C15/Sites.lean)
+    CUT = ("load_object", "save_ed_buffer")
+
+    def reaches(start, targets, cut=()):
+        seen, todo = set(), [start]
+        while todo:
+            f = todo.pop()
+            if f in seen or (f in cut and f != start):
+                continue
+            seen.add(f)
+            if f in targets:
+                return True
+            todo += list(graph.get(f, ()))
+        return False
+
+    efun_fns = sorted(set(d["name"] for d in defs if d["name"].startswith("f_") and d["file"].startswith("lib/efuns/")))
+    fs_efuns = [f for f in efun_fns if reaches(f, med_fns, CUT)]
+    loader_efuns = [f for f in efun_fns if f not in fs_efuns and (reaches(f, {"load_object"}) or reaches(f, ldr_fns, CUT))]
     return dict(scanned=sorted(scanned), notScanned=not_scanned, fsCallees=sorted(FS_CALLEES),
-                sites=sites, calls=rows)
+                sites=sites, calls=rows, fsEfuns=fs_efuns, loaderEfuns=loader_efuns)
 
 
 def dedup(rows, keys):
@@ -1233,6 +1261,12 @@ def render(res):
         "{ file := %s, caller := %s, callee := %s, arg := %d, line := %d, origin := %s }" % (
             lstr(c["file"]), lstr(c["caller"]), lstr(c["callee"]), c["arg"], c["line"], lorigin(c["origin"]))
         for c in res["calls"]]))
+    out.append(llist("fsEfuns", "String", [lstr(x) for x in res.get("fsEfuns", [])],
+                     "efun implementations (f_* in lib/efuns) from which a file-system call site of lib/efuns or "
+                     "lib/lpc/object.c is reachable in the call graph of the scanned files"))
+    out.append(llist("loaderEfuns", "String", [lstr(x) for x in res.get("loaderEfuns", [])],
+                     "efun implementations that reach the file system only through load_object / #include / "
+                     "saved binaries"))
     return "".join(out)
 
 
